@@ -63,6 +63,7 @@ func c37ErrClass(err error) string {
 		{"bad payload signature", "id-payload-signature"}, {"not enough data for payload header", "short-page-header"},
 		{"checksum do not match", "checksum"}, {"unsupported channel mapping", "mapping-family"},
 		{"malformed rtpdump", "malformed"}, {"stream is nil", "nil"},
+		{"data is not a H264 bitstream", "notstream"}, {"data is not a H265/HEVC bitstream", "notstream"},
 	} {
 		if strings.Contains(s, kv[0]) {
 			return kv[1]
@@ -166,6 +167,7 @@ func c37Run(in c37In) (V, Verdict) {
 			fin(err)
 			break
 		}
+		obs = append(obs, VL{VS("header")})
 		loop(func() (int, error) {
 			p, err := r.Next()
 			return len(p.Payload), err
